@@ -182,8 +182,8 @@ Example C07_gv_instances :
 Proof. repeat split; vm_compute; reflexivity. Qed.
 
 (* ---- C02, GVariant half: encode-then-decode.  For every byte order, start offset and well-formed value within the
-   nesting limits, outside the known classes, without descriptors and without dicts (rtok: no dict node; the type string
-   of a variant's payload at most stack_limit bytes): the deserializer model, run on the serializer model's output with the
+   nesting limits, outside the known classes and without descriptors (rtok: the type string of every variant's payload
+   is at most stack_limit = 50000 bytes): the deserializer model, run on the serializer model's output with the
    value's own signature, returns the value and consumes exactly the encoded length — for any recursion fuel >= 65. ---- *)
 Theorem C02_gv_roundtrip : forall (e : endian) (pos : N) (v : gval) (fuel : nat),
   gwf v = true -> gwithin_limits v = true -> gplain v = true -> gsmall e v = true -> known_c05 e v = false ->
@@ -205,10 +205,10 @@ Proof. intros e v fuel st. exact (rt_all e v fuel st). Qed.
 Print Assumptions C02_gv_decode_spec.
 
 Example C02_gv_roundtrip_instance :
-  rtok (GStruct [GU8 7; GArray (SStruct [SStr; SU16; SStr]) [GStruct [GStr (B "k"); GU16 9; GStr []]; GStruct [GStr []; GU16 1; GStr (B "zz")]];
+  rtok (GStruct [GU8 7; GDict SStr SVariant [(GStr (B "a"), GVariant (GU32 5))]; GArray (SStruct [SStr; SU16; SStr]) [GStruct [GStr (B "k"); GU16 9; GStr []]; GStruct [GStr []; GU16 1; GStr (B "zz")]];
                  GVariant (GMaybe SStr (Some (GStr (B "x")))); GMaybe (SArray SI64) (Some (GArray SI64 [GI64 (-1)]))]) = true
-  /\ rt_value BE 3 (GStruct [GU8 7; GArray (SStruct [SStr; SU16; SStr]) [GStruct [GStr (B "k"); GU16 9; GStr []]; GStruct [GStr []; GU16 1; GStr (B "zz")]];
+  /\ rt_value BE 3 (GStruct [GU8 7; GDict SStr SVariant [(GStr (B "a"), GVariant (GU32 5))]; GArray (SStruct [SStr; SU16; SStr]) [GStruct [GStr (B "k"); GU16 9; GStr []]; GStruct [GStr []; GU16 1; GStr (B "zz")]];
                  GVariant (GMaybe SStr (Some (GStr (B "x")))); GMaybe (SArray SI64) (Some (GArray SI64 [GI64 (-1)]))])
-      = Ok (GStruct [GU8 7; GArray (SStruct [SStr; SU16; SStr]) [GStruct [GStr (B "k"); GU16 9; GStr []]; GStruct [GStr []; GU16 1; GStr (B "zz")]];
-                 GVariant (GMaybe SStr (Some (GStr (B "x")))); GMaybe (SArray SI64) (Some (GArray SI64 [GI64 (-1)]))], 48, 48).
+      = Ok (GStruct [GU8 7; GDict SStr SVariant [(GStr (B "a"), GVariant (GU32 5))]; GArray (SStruct [SStr; SU16; SStr]) [GStruct [GStr (B "k"); GU16 9; GStr []]; GStruct [GStr []; GU16 1; GStr (B "zz")]];
+                 GVariant (GMaybe SStr (Some (GStr (B "x")))); GMaybe (SArray SI64) (Some (GArray SI64 [GI64 (-1)]))], 65, 65).
 Proof. split; vm_compute; reflexivity. Qed.
